@@ -21,18 +21,26 @@ CHECKS = {
    technique="negation laws as TLC invariants over the single-clause space of MC_E1; every polarity replayed into run_checks; recorded negation groups validated by the TraceNeg trace specification",
    text="TLC checks on the specification, for every state of MC_E1, that prefix not equals operator-level not, that negating twice restores the original, that SKIP/errors are preserved and that a single comparable value flips PASS/FAIL (not X > v iff X <= v); each state is replayed against the real evaluator in its 2-4 polarities and the relation is re-checked directly between the implementation's runs. Random programs with one clause (in rule bodies, blocks, when conditions, filters) negated both ways, plus `not R` rule references, are recorded and the laws are evaluated by the trace specification TraceNeg on the implementation's own observations.",
    note=NOTE_BASE + "The single-comparable-value flip law is decided on the enumerated space only; on random programs the checked relations are neg==opneg, double negation and named-rule negation."),
+ "C04": dict(level="model_checking", engine="spec+trace+hooks", design="5/C04",
+   technique="GuardMachine (rule-status cache, variable memo, evaluation stack) model-checked with TLC under every schedule; permutation law over all CNF shapes; recorded permutation groups validated by TraceGroup; hook-event streams validated against GuardMachine by TraceMemo",
+   text="The history dimension is modelled explicitly: GuardMachine has one action per critical section of the scopes (cache miss/hit of rule_status, first evaluation / memo read of a variable, key capture, fresh root scope) and TLC checks, for every reference graph over three rules, every status assignment and every order in which file rules and references are visited, that the cache is coherent, single-assigned, never re-entered and that the result does not depend on the schedule. TLC also checks that the combination rules are invariant under every permutation and repetition of lines and alternatives (shapes up to 4x3). Against the code: random rule files are evaluated together with variants in which lines, alternatives or rules are permuted, a clause is repeated or a rule is duplicated under a new name, and TraceGroup requires identical verdicts (as multisets) unless an ordering raised an error; the hook events of random evaluations (rules referenced before and after their definition, variables read several times) are validated step by step against GuardMachine.",
+   note=NOTE_BASE + "Hooks (cfg guard_verif) report after the state change; block scopes are identified by address, so the single-assignment check is exact for the root scope and weaker (memo read must return the last computed count) for block scopes."),
  "C13": dict(level="model_checking", engine="spec+replay", design="5/C13",
    technique="algebra laws (trichotomy, <=/>= decomposition, order, reflexivity/symmetry of ==, range/regex/in membership, cross-type) evaluated by TLC over the full value x operator x rhs matrix of MC_C13; every cell replayed into run_checks",
    text="Exhaustive in both tiers: TLC enumerates every ordered pair of the 38-value universe (boundary ints, finite floats, unicode/prefix strings, bools, null, lists, maps) x six operators x both polarities, the four range bracket forms, a regex table and in-lists, with the left side loaded from the data and the right side a literal, plus all pairs with both sides loaded from the data; the laws of the property are evaluated on the whole matrix and every cell is executed against the real evaluator and compared. A law broken on the matrix is therefore broken by the implementation; such laws are reported by name and input class.",
    note=NOTE_BASE + "i64/f64 arithmetic and fancy_regex are trusted; arbitrary regexes are outside the modelled fragment."),
+ "C15": dict(level="model_checking", engine="spec+trace+hooks", design="5/C15",
+   technique="abstraction law (AbsOK) checked by TLC over the single-clause space; recorded abstraction groups validated by TraceGroup; variable-resolution hook events validated against GuardMachine",
+   text="TLC checks on the specification, for every state of MC_E1, that binding the literal or query right-hand side, or any prefix of the left-hand query, to a file-level or rule-level variable leaves the verdict unchanged, that an inner definition shadows an outer one and that an unused (even unevaluable) variable has no influence. Against the code, random rule files are evaluated together with variants where one occurrence is abstracted into a let (literal rhs, query rhs, query prefix; file or rule scope), an unused variable is added, an outer definition is shadowed, or a clause is replaced by a call of a parameterised rule with that clause as its body; TraceGroup requires identical verdicts and every line is also judged against Denote. The hook events show which scope served each variable and that every reference sees the value first computed.",
+   note=NOTE_BASE + "Block-level abstraction sites inside query blocks are exercised only through the generator's own block lets (judged against Denote), not through the abstraction transformation."),
 }
 
 m = {"version": 1,
-     "setup_cmd": "cd /verif/harness && cargo build --offline && cd /verif/spec && for f in GuardValues GuardOps GuardEval TraceEval TraceNeg TraceRecord MC_E1 MC_C13 MC_Cnf; do tla-sany $f.tla > /dev/null || exit 1; done",
+     "setup_cmd": "cd /verif/harness && cargo build --offline && cd /verif/spec && for f in GuardValues GuardOps GuardEval TraceEval TraceNeg TraceRecord TraceGroup TraceMemo MC_E1 MC_C13 MC_Cnf MC_Machine; do tla-sany $f.tla > /dev/null || exit 1; done",
      "hooks": {"guard": "guard_verif",
                "enable": "rustflags = [\"--cfg\", \"guard_verif\"] in /verif/harness/.cargo/config.toml (checks build the cfn-guard library through the harness path dependency on /repo/guard)",
                "baseline_off_cmd": "cd /repo && cargo nextest run --workspace --no-fail-fast --test-threads 8 --offline || cargo test --workspace --no-fail-fast --offline",
-               "source_commits": [], "add_only": True},
+               "source_commits": ["7d9b4b1"], "add_only": True},
      "engines": [
         {"name": "spec", "path": "spec", "serves_properties": sorted(CHECKS), "kind_free_text": "TLA+ specification of the evaluator and drivers, model-checked with TLC"},
         {"name": "replay", "path": "harness", "serves_properties": sorted(CHECKS), "kind_free_text": "spec -> impl: TLC-generated cases executed against the real code (Rust harness gv)"},
